@@ -44,6 +44,9 @@ func (w *World) writeNativeOverlay(dir string) (map[string]string, error) {
 		pd := filepath.Join(dir, pkg)
 		os.MkdirAll(pd, 0o755)
 		for _, f := range files {
+			if _, dropped := w.ld.Dropped[filepath.Join(w.Repo, pkg, "zz_"+filepath.Base(f))]; dropped {
+				continue // does not compile against the current tree (see Loaded.Dropped)
+			}
 			src, _ := os.ReadFile(f)
 			s := strings.Replace(string(src), "//go:build verif_harness", "// (harness)", 1)
 			dst := filepath.Join(pd, filepath.Base(f))
